@@ -312,7 +312,7 @@ theorem neutral_afterServe (l : Loc) : (afterServe l).neutral = true := by
 
 set_option hygiene false in
 /-- close `InvL s'` for a step of `t` between neutral pcs (`h : InvL s`, `hpc : (s.loc t).pc = _`) -/
-macro "neutral_step" : tactic =>
+local macro "neutral_step" : tactic =>
   `(tactic| exact invL_neutral h (t := t) (fun u hu => by simp [hu]) rfl rfl rfl (by rw [hpc]; rfl)
       (by first
         | exact neutral_afterServe _
@@ -499,7 +499,7 @@ theorem invD_frame {s s' : St} {t : Tid} (h : InvD s)
 
 set_option hygiene false in
 /-- close `InvD s'` for a step of `t` to a pc outside `d1`…`d5` (`h : InvD s`) -/
-macro "nondisp_step" : tactic =>
+local macro "nondisp_step" : tactic =>
   `(tactic| exact invD_frame h (t := t) (fun u hu => by simp [hu])
       (ok_of_not_disp (by first
         | exact disp_afterServe _
